@@ -673,7 +673,7 @@ class Evaluator:
         return list(val.args)
     if val.op == 'unzip' and n == val.args[1]:
       return [T('unzipped', val.args[0], i) for i in range(n)]
-    return [T('sub', val, const(i)) for i in range(n)]
+    return [self.subscript(val, const(i), None) for i in range(n)]
 
   # ------------------------------------------------------------ iteration helpers
   def enumerate_iter(self, it):
@@ -1113,6 +1113,24 @@ class Evaluator:
       return ite(base.args[0], self.subscript(base.args[1], idx, n), self.subscript(base.args[2], idx, n))
     if base.op == 'unzip' and is_const(idx):
       return T('unzipped', base.args[0], cval(idx))
+    if base.op == 'sub' and base.args[1].op == 'slice' and is_const(idx) and isinstance(cval(idx), int) and \
+        not isinstance(cval(idx), bool) and cval(idx) >= 0:
+      # x[:h][i] is x[i] for 0 <= i < h (sequences and arrays alike: whenever one is defined so is the other)
+      lo, hi, stp = base.args[1].args
+      if all(is_const(x) for x in (lo, hi, stp)) and cval(stp) in (None, 1) and cval(lo) in (None, 0) and \
+          (cval(hi) is None or (isinstance(cval(hi), int) and cval(hi) > cval(idx))):
+        return self.subscript(base.args[0], idx, n)
+    if base.op == 'sub' and base.args[1].op == 'slice' and base.args[0].op == 'while' and \
+        is_const(idx) and isinstance(cval(idx), int) and not isinstance(cval(idx), bool) and cval(idx) >= 0:
+      # state[a:b][i] of a loop's final state (a python tuple shaped like the initial state) is state[a + i]
+      lo, hi, stp = base.args[1].args
+      init = base.args[0].args[1] if len(base.args[0].args) > 1 else None
+      if all(is_const(x) for x in (lo, hi, stp)) and cval(stp) in (None, 1) and (cval(lo) is None or cval(lo) >= 0) and \
+          init is not None and init.op in ('tuple', 'list') and not any(a.op == 'star' for a in init.args):
+        j = (cval(lo) or 0) + cval(idx)
+        top = len(init.args) if cval(hi) is None else (cval(hi) if cval(hi) >= 0 else len(init.args) + cval(hi))
+        if j < min(top, len(init.args)):
+          return self.subscript(base.args[0], const(j), n)
     if base.op == 'cond' and (is_const(idx) or idx.op == 'slice') and \
         base.args[1].op in ('tuple', 'list', 'cond') and base.args[2].op in ('tuple', 'list', 'cond'):
       return T('cond', base.args[0], self.subscript(base.args[1], idx, n), self.subscript(base.args[2], idx, n))
@@ -1268,6 +1286,14 @@ class Evaluator:
       if f.args[0] in ('jax.numpy.where', 'jax.lax.select', 'numpy.where') and len(args) == 3 and not kwargs:
         c2, flipped = strip_negation(args[0])       # canonical polarity of array selects
         args = [c2, args[2], args[1]] if flipped else [c2, args[1], args[2]]
+      if f.args[0] in ('jax.numpy.moveaxis', 'numpy.moveaxis') and len(args) == 3 and not kwargs and \
+          is_const(args[1], 0) and is_const(args[2], -1):
+        # moving the leading axis to the end is the cyclic transpose (1, ..., rank-1, 0): one spelling for both
+        sc_ = Scope('function', None, locals_=set(), label='<canon>')
+        sc_.vars['a'] = args[0]
+        axes = self.ev(ast.parse('tuple(range(1, len(a.shape))) + (0,)', mode='eval').body, sc_)
+        f = ext(f.args[0].rsplit('.', 1)[0] + '.transpose')
+        args = [args[0], axes]
       r = self.call_ext(f.args[0], args, kwargs, n, scope)
       if r is not None:
         return r
@@ -1537,6 +1563,10 @@ class Evaluator:
         st['pos'] += 1
         return st['items'][st['pos'] - 1]
       return None
+    if name == 'dict' and '**' not in kwargs and (not a or (len(a) == 1 and a[0].op == 'dict')):
+      # dict(k=v, ...) / dict(d, k=v) is the literal {**d, 'k': v}
+      items = [kv for kv in (a[0].args if a else ()) if not (is_const(kv[0]) and cval(kv[0]) in kwargs)]
+      return T('dict', *items, *[(const(k), v) for k, v in kwargs.items()])
     if name == 'len' and len(a) == 1:
       x = a[0]
       if x.op in ('list', 'tuple', 'set', 'dict') and not any(isinstance(e, T) and e.op == 'star' for e in x.args):
